@@ -7,8 +7,8 @@ if [ "$1" = "-w" ]; then WSN="$2"; shift 2; fi
 PATCH="$(readlink -f "$1")"; shift
 WS=/tmp/ws-$WSN
 /verif/scripts/agent_ws.sh $WSN >/dev/null || exit 2
-HEAD=$(git -C /repo rev-parse HEAD)
-git -C $WS/repo checkout -q -- . 2>/dev/null
+HEAD=$(git -C /repo rev-parse ${MUT_BASE:-HEAD})
+git -C $WS/repo reset -q --hard 2>/dev/null
 git -C $WS/repo clean -qfd 2>/dev/null
 git -C $WS/repo checkout -q --detach $HEAD || exit 2
 # uncommitted hook/fix work in /repo is not copied: mutants are evaluated against the committed tree
